@@ -9,6 +9,7 @@
 //!   RequestParams.lean – the eight `prepare_request` functions and `endpoint_request`, statement by statement
 //!   PollStep.lean    – `process_response` (interval expressions, which replies continue) and the two poll loops
 //!   ResponseFlow.lean – `endpoint_response` and friends as a decision tree
+//!   AuthUrlSteps.lean – `AuthorizationRequest::url`, its builder methods, constructor and entry points
 //! Files are rewritten only when their content changes.  The first four are written together or not at all
 //! (they share the inventory); each of the last three is translated and written on its own, so that a shape
 //! outside one grammar does not keep the others from following the source.
@@ -17,6 +18,7 @@
 //! inventory.rs).  Anything else is a TRANSLATION FAILURE: one line
 //!   TRANSLATION-FAILURE: <file>:<item>: <what was expected>
 //! on stdout and exit status 1 (bin/check reports it like a broken proof, DESIGN §3.3).
+mod authurl;
 mod client;
 mod consts;
 mod inventory;
@@ -121,6 +123,7 @@ fn run(src: &Path, outdir: &Path, inv_json: &Path) -> R<Vec<String>> {
     emit("RequestParams.lean", request::extract(&srcs), &mut status);
     emit("PollStep.lean", poll::extract(&srcs), &mut status);
     emit("ResponseFlow.lean", respflow::extract(&srcs), &mut status);
+    emit("AuthUrlSteps.lean", authurl::extract(&srcs), &mut status);
     emit("ErrorTables.lean", tables::extract(&srcs), &mut status);
     match inventory::extract(&srcs) {
         Ok(mut inv) => {
